@@ -155,7 +155,11 @@ def write_cfg(path, spec="Spec", invariants=(), constants=None, postcondition=No
     if constants:
         lines.append("CONSTANTS")
         for k, v in constants.items():
-            lines.append("  %s = %s" % (k, v))
+            # a value written "<- Name" substitutes an operator of the MC module for the constant
+            if isinstance(v, str) and v.startswith("<-"):
+                lines.append("  %s %s" % (k, v))
+            else:
+                lines.append("  %s = %s" % (k, v))
     lines.append("CHECK_DEADLOCK FALSE")
     with open(path, "w") as f:
         f.write("\n".join(lines) + "\n")
@@ -242,6 +246,13 @@ def source_constants():
         "MUL_THRESHOLD_KARATSUBA": ("integer/src/mul/mod.rs", r"const THRESHOLD_KARATSUBA: usize = (\d+);", 192),
         "SQR_MAX_LEN_SIMPLE": ("integer/src/sqr/mod.rs", r"const MAX_LEN_SIMPLE: usize = (\d+);", 30),
         "DIV_THRESHOLD_SIMPLE": ("integer/src/div/mod.rs", r"const THRESHOLD_SIMPLE: usize = (\d+);", 32),
+        # the closed formulas of the scratch-memory requirement: a * n + b * ceil_log2(n)
+        "KARATSUBA_MEM_A": ("integer/src/mul/karatsuba.rs", r"let num_words = (\d+) \* n \+ \d+ \* \(math::ceil_log2\(n\) as usize\);", 2),
+        "KARATSUBA_MEM_B": ("integer/src/mul/karatsuba.rs", r"let num_words = \d+ \* n \+ (\d+) \* \(math::ceil_log2\(n\) as usize\);", 2),
+        "TOOM3_MEM_A": ("integer/src/mul/toom_3.rs", r"let num_words = (\d+) \* n \+ \d+ \* \(math::ceil_log2\(n\) as usize\);", 4),
+        "TOOM3_MEM_B": ("integer/src/mul/toom_3.rs", r"let num_words = \d+ \* n \+ (\d+) \* \(math::ceil_log2\(n\) as usize\);", 13),
+        "KARATSUBA_MIN_LEN": ("integer/src/mul/karatsuba.rs", r"pub const MIN_LEN: usize = (\d+);", 3),
+        "TOOM3_MIN_LEN": ("integer/src/mul/toom_3.rs", r"pub const MIN_LEN: usize = (\d+);", 16),
     }
     repo = os.environ.get("VERIF_REPO", "/repo")
     out, unbound = {}, []
